@@ -149,6 +149,8 @@ TYPEMAP = {
     'tmcg_openpgp_octets_t': 'vec_u8',
     'std::vector<unsigned char, TMCG_SecureAlloc<unsigned char>>': 'vec_u8',
     'tmcg_openpgp_secure_octets_t': 'vec_u8',
+    'std::vector<bool>': 'vec_bool', 'std::_Bit_reference': 'bitref_t', 'std::vector<bool>::reference': 'bitref_t',
+    'std::vector<bool>::const_reference': '_Bool',
     'std::vector<mpz_ptr>': 'vec_mpz',
     'tmcg_mpz_vector_t': 'vec_mpz',
     'std::string': 'str_t',
